@@ -119,10 +119,12 @@ structure Fixes where
   keys : Bool
   /-- C08: an OPN chunk whose policy differs from that of an already secured channel is rejected -/
   opnPolicy : Bool
+  /-- C07: the padding of an encrypted MSG/CLO chunk is verified and stripped -/
+  symPadding : Bool
 deriving Repr, DecidableEq
 
-def Fixes.pinned : Fixes := ⟨false, false, false, false, false, false, false, false⟩
-def Fixes.current : Fixes := ⟨true, true, true, true, true, true, true, true⟩
+def Fixes.pinned : Fixes := ⟨false, false, false, false, false, false, false, false, false⟩
+def Fixes.current : Fixes := ⟨true, true, true, true, true, true, true, true, true⟩
 
 /-! ### byte-level helpers -/
 
@@ -387,7 +389,11 @@ def recvSym (F : Fixes) (C : Crypto) (ch : Chan) (src : Bytes) (start : Nat) : O
             else
               let dst := src.take start ++ pt ++ List.replicate (n - encEnd) 0
               if C.hmacOk ch.policy (dst.take (n - sig)) ((dst.drop (encEnd - sig)).take sig) then
-                .ok (setSizeTrunc dst (encEnd - sig))
+                if F.symPadding then
+                  match verifyPadding F dst sig (encEnd - sig) with
+                  | .inl o => o
+                  | .inr padStart => .ok (setSizeTrunc dst padStart)
+                else .ok (setSizeTrunc dst (encEnd - sig))
               else .err .badSecurityChecksFailed
   else .ok src
 
